@@ -710,6 +710,43 @@ func ruleTL(c *Ctx) {
 							c.Check(k == 1 && okOne, key, pos, "incremented by one where it is known to be below len(buf)", fmt.Sprintf("the cursor is advanced by the constant %d without a dominating test that it stays within the buffer", k))
 							continue
 						}
+						// the unread bytes taken as a slice from the cursor: their number, or the position reached while
+						// ranging over them plus one, is non-negative and no more than what is left
+						isRest := func(v ssa.Value) bool {
+							sl, ok := stripChange(v).(*ssa.Slice)
+							if !ok || sl.High != nil || sl.Low == nil {
+								return false
+							}
+							ld, ok := sl.Low.(*ssa.UnOp)
+							if !ok || ld.Op != token.MUL || !strings.HasSuffix(accessPath(ld.X), "->"+cur) {
+								return false
+							}
+							return strings.HasSuffix(accessPath(sl.X), "->"+bufF+")")
+						}
+						if lc, isC := delta.(*ssa.Call); isC && isBuiltinCall(lc, "len") && isRest(lc.Call.Args[0]) {
+							c.OK(key, pos, "advanced by the number of unread bytes, taken as len(buf[cursor:])")
+							continue
+						}
+						if bo2, isB2 := delta.(*ssa.BinOp); isB2 && bo2.Op == token.ADD {
+							if one, isK := constInt(bo2.Y); isK && one == 1 {
+								// i+1 where 0 <= i < len(rest) holds here: i is the index of a range over rest
+								okIdx := false
+								for _, cmp := range cmpFactsAt(b) {
+									if cmp.Op == token.LSS && cmp.X == bo2.X {
+										if lc, isC := cmp.Y.(*ssa.Call); isC && isBuiltinCall(lc, "len") && isRest(lc.Call.Args[0]) {
+											okIdx = true
+										}
+									}
+								}
+								if phi, isPhi := bo2.X.(*ssa.BinOp); okIdx && isPhi {
+									_ = phi
+								}
+								if okIdx && isRangeIndex(bo2.X) {
+									c.OK(key, pos, "advanced by the index reached in a range over buf[cursor:] plus one: at least 1, at most the bytes left")
+									continue
+								}
+							}
+						}
 						low, bounded := true, true
 						var who []string
 						rs := e.roots(delta)
@@ -1626,4 +1663,48 @@ func reachedOnlyFrom(P *Program, f, root *ssa.Function, d int) bool {
 		}
 	}
 	return true
+}
+
+// isRangeIndex: v is the index of a range loop in its rotated SSA form: i = phi(-1, i+1) incremented to
+// t = i + 1 before the bound test, or the classic phi(0, i+1).
+func isRangeIndex(v ssa.Value) bool {
+	nonNeg := func(p *ssa.Phi, next ssa.Value) bool {
+		for _, e := range p.Edges {
+			if k, isK := constInt(e); isK {
+				if k < -1 {
+					return false
+				}
+				continue
+			}
+			if e != next {
+				return false
+			}
+		}
+		return true
+	}
+	switch x := v.(type) {
+	case *ssa.Phi:
+		// classic: i = phi(0, i+1)
+		for _, e := range x.Edges {
+			if bo, ok := e.(*ssa.BinOp); ok && bo.Op == token.ADD && bo.X == ssa.Value(x) {
+				if k, isK := constInt(bo.Y); isK && k == 1 {
+					init := true
+					for _, e2 := range x.Edges {
+						if k2, isK2 := constInt(e2); isK2 && k2 < 0 {
+							init = false
+						}
+					}
+					return init && nonNeg(x, bo)
+				}
+			}
+		}
+	case *ssa.BinOp:
+		// rotated: t = phi(-1, t) + 1
+		if p, ok := x.X.(*ssa.Phi); ok && x.Op == token.ADD {
+			if k, isK := constInt(x.Y); isK && k == 1 {
+				return nonNeg(p, x)
+			}
+		}
+	}
+	return false
 }
